@@ -66,7 +66,13 @@ class _BufferedLoadAndSave(_LoadAndSave):
 
     def __enter__(self):
         self._collection._buffer_lock.__enter__()
-        super().__enter__()
+        try:
+            super().__enter__()
+        except BaseException:
+            # __exit__ is not called if __enter__ raises, so the lock must
+            # be released here.
+            self._collection._buffer_lock.__exit__(None, None, None)
+            raise
 
     def __exit__(self, exc_type, exc_val, exc_tb):
         try:
